@@ -37,6 +37,7 @@ def showKey : Key → Bytes
   | .str s => showStr s
   | .num i => 35 :: natBytes i.natAbs
   | .strs l => 63 :: joinWith 47 l
+  | .nil => [36]
 
 mutual
 def showVal : Val → Bytes
